@@ -35,10 +35,46 @@ type c19IDCase struct {
 	ID      string `json:"id"`
 	Version string `json:"version"`
 	Base    string `json:"base"`
+	// Maybe: the base was generated over a wider alphabet than the documented one; it may be
+	// refused, but if WithServiceBaseURL accepts it the whole round trip applies
+	Maybe bool `json:"maybe,omitempty"`
+}
+
+var c19BaseAlphabet = strings.Split("abcdefghijklmnopqrstuvwxyzABCDEFGHIJKLMNOPQRSTUVWXYZ0123456789-.:%$_", "")
+var c19BaseExtra = []string{"~", "@", "+", "=", ";", ",", "!", "*", "'", "(", ")", "&", " ", "é", "?", "#", "|", "[", "]", "\\", "^", "\""}
+
+// c19GenBase: scheme://segment(/segment)* over the documented alphabet of a service base URL;
+// ext: some characters from outside it
+func c19GenBase(s Src, ext bool) string {
+	b := pickOne(s, []string{"http", "https"}) + "://"
+	n := s.Range(1, 4)
+	for i := 0; i < n; i++ {
+		if i > 0 {
+			b += "/"
+		}
+		if i > 0 && s.Prob(12) {
+			b += pickOne(s, []string{"Patient", "_history", "Observation", "fhir", "R4"})
+			continue
+		}
+		for j, m := 0, s.Range(1, 10); j < m; j++ {
+			if ext && s.Prob(15) {
+				b += pickOne(s, c19BaseExtra)
+			} else {
+				b += pickOne(s, c19BaseAlphabet)
+			}
+		}
+	}
+	return b
 }
 
 func c19GenID(s Src) c19IDCase {
 	c := c19IDCase{Type: allResTypes[s.Intn(len(allResTypes))].Name, ID: genID(s), Base: pickOne(s, c19Bases)}
+	switch s.Intn(4) {
+	case 0:
+		c.Base = c19GenBase(s, false)
+	case 1:
+		c.Base, c.Maybe = c19GenBase(s, true), true
+	}
 	if s.Bool() {
 		c.Version = genID(s)
 	}
@@ -155,9 +191,16 @@ func c19RunID(ctx *Ctx, c c19IDCase) {
 			// with a service base URL
 			if c.Base != "" {
 				wb, err := lit.WithServiceBaseURL(c.Base)
+				if err != nil && c.Maybe {
+					ctx.Count("generated_base_outside_the_documented_alphabet_refused")
+					continue
+				}
 				if err != nil {
 					fail("WithServiceBaseURL rejects a valid base", err.Error())
 					return
+				}
+				if c.Maybe {
+					ctx.Count("generated_base_outside_the_documented_alphabet_accepted")
 				}
 				abs := wb.URIString()
 				if abs != c.Base+"/"+s {
@@ -362,6 +405,10 @@ type c19RefSpec struct {
 	T    int    `json:"t"`
 	ID   int    `json:"id"`
 	V    int    `json:"v"`
+	// the members of Reference are not exclusive: any literal form may also carry a logical
+	// identifier (1, 2: two different ones) and a display text
+	Ident int  `json:"ident,omitempty"`
+	Disp  bool `json:"disp,omitempty"`
 }
 
 type c19IsCase struct {
@@ -373,10 +420,26 @@ var c19SmallIDs = []string{"1", "2"}
 var c19SmallVers = []string{"", "7"}
 
 func c19GenSpec(s Src) c19RefSpec {
-	return c19RefSpec{Form: pickOne(s, []string{"strong", "strong", "weak", "weak", "weak-abs", "frag", "ident", "display", "weak-urn"}), T: s.Intn(2), ID: s.Intn(2), V: s.Intn(2)}
+	r := c19RefSpec{Form: pickOne(s, []string{"strong", "strong", "weak", "weak", "weak-abs", "frag", "ident", "display", "weak-urn"}), T: s.Intn(2), ID: s.Intn(2), V: s.Intn(2)}
+	if s.Prob(40) {
+		r.Ident = 1 + s.Intn(2)
+	}
+	r.Disp = s.Prob(15)
+	return r
 }
 
 func (r c19RefSpec) build() *dtpb.Reference {
+	ref := r.buildForm()
+	if r.Ident > 0 {
+		ref.Identifier = &dtpb.Identifier{System: &dtpb.Uri{Value: "http://example.org/ids"}, Value: &dtpb.String{Value: []string{"", "idA", "idB"}[r.Ident%3]}}
+	}
+	if r.Disp {
+		ref.Display = &dtpb.String{Value: "shown"}
+	}
+	return ref
+}
+
+func (r c19RefSpec) buildForm() *dtpb.Reference {
 	t, id, v := c19SmallTypes[r.T], c19SmallIDs[r.ID], c19SmallVers[r.V]
 	rel := t + "/" + id
 	if v != "" {
